@@ -155,7 +155,15 @@ class ElectronRepulsionIntegral(BaseFourIndexSymmetric):
         if not isinstance(cont_four, GeneralizedContractionShell):
             raise TypeError("`cont_four` must be a `GeneralizedContractionShell` instance.")
 
-        # TODO: we can probably swap the contractions to get the optimal time or memory usage
+        # The electron-transfer recursion builds the angular momentum of the second pair from the
+        # first pair and amplifies rounding errors by roughly (exponents of the first pair /
+        # exponents of the second pair) per unit of transferred angular momentum. Since
+        # (ab|cd) = (cd|ab), evaluate the better conditioned orientation and swap back at the end.
+        swapped = cls._transfer_amplification(
+            cont_three, cont_four, cont_one, cont_two
+        ) < cls._transfer_amplification(cont_one, cont_two, cont_three, cont_four)
+        if swapped:
+            cont_one, cont_two, cont_three, cont_four = cont_three, cont_four, cont_one, cont_two
         if cont_one.angmom == cont_two.angmom == cont_three.angmom == cont_four.angmom == 0:
             integrals = _compute_two_elec_integrals_angmom_zero(
                 cls.boys_func,
@@ -197,10 +205,23 @@ class ElectronRepulsionIntegral(BaseFourIndexSymmetric):
                 cont_four.coeffs,
             )
         integrals = np.transpose(integrals, (4, 0, 5, 1, 6, 2, 7, 3))
-
-        # TODO: if we swap the contractions, we need to unswap them here
-
+        if swapped:
+            integrals = np.transpose(integrals, (4, 5, 6, 7, 0, 1, 2, 3))
         return integrals
+
+    @staticmethod
+    def _transfer_amplification(cont_one, cont_two, cont_three, cont_four):
+        r"""Return the log-amplification of rounding errors by the electron-transfer recursion.
+
+        The angular momentum of `cont_three` and `cont_four` is built up from the pair
+        (`cont_one`, `cont_two`); every unit of angular momentum multiplies intermediate values by
+        at most :math:`(\alpha_1 + \alpha_2) / (\alpha_3 + \alpha_4)`.
+
+        """
+        ratio = (np.max(cont_one.exps) + np.max(cont_two.exps)) / (
+            np.min(cont_three.exps) + np.min(cont_four.exps)
+        )
+        return (cont_three.angmom + cont_four.angmom) * max(np.log(ratio), 0.0)
 
 
 def electron_repulsion_integral(basis, transform=None, notation="physicist"):
